@@ -177,7 +177,27 @@ def account_copy(P, R, writers):
             vs = vars_in(s.ev['lhs']['index'])
             iv = sorted(vs)[0] if vs else None
         if iv is None:
-            R.ob('C05.BND.1', False, f, 'account copy loop not found', key='copy:shape')
+            # measure-then-copy form: a counter stepped only while the text goes on, memcpy of that many bytes, zero fill
+            # of the rest of the field
+            cps = [c for c in f.calls('memcpy') if is_field(c.ev['args'][0], 'account') and is_var(c.ev['args'][2]) and any(is_var(x) and x['name'] in srcp for x in walk(c.ev['args'][1]))]
+            fills = [c for c in f.calls('memset') if any(is_field(x, 'account') for x in walk(c.ev['args'][0])) and const_of(c.ev['args'][1]) == 0]
+            if not cps:
+                R.ob('C05.BND.1', False, f, 'account copy loop not found', key='copy:shape')
+                continue
+            L = cps[0].ev['args'][2]['name']
+            incs = [t for t in f.stores() if t.ev['k'] == 'store' and is_var(t.ev.get('lhs'), L) and t.ev.get('op') == '++']
+            okm = bool(incs)
+            for t in incs:
+                gs = f.guards(t.bid)
+                def stop(c):
+                    return any(isinstance(g[0], dict) and g[0].get('k') == 'idx' and is_var(g[0]['base']) and g[0]['base']['name'] in srcp and is_var(g[0]['index'], L) and g[1] == '!=' and const_of(g[2]) == c for g in gs)
+                lim = [const_of(g[2]) for g in gs if is_var(g[0], L) and g[1] == '<' and isinstance(const_of(g[2]), int)]
+                R.ob('C05.BND.1', stop(32), t, 'the account length stops at the first space', key='copy:space')
+                R.ob('C05.BND.1', stop(0), t, 'the account length stops at the end of the text', key='copy:nul')
+                R.ob('C05.BND.1', bool(lim) and ext is not None and min(lim) <= ext - 1, t, 'the account length stops at the length limit (%s, extent %s)' % (lim, ext), key='copy:limit')
+            okf = bool(fills) and f.path_avoiding(cps[0], lambda t: t in fills) is None and any(x.get('k') == 'bin' and x.get('op') == '+' and is_var(x.get('r'), L) for x in walk(fills[0].ev['args'][0])) \
+                and sx(fills[0].ev['args'][2]).replace(' ', '') == '(%d-%s)' % (ext or -1, L)
+            R.ob('C05.BND.1', okm and okf, cps[0], 'the account is NUL-terminated whatever the text was (zero fill from the copied length to the end of the field)', key='copy:terminated')
             continue
         before, bout, INF = rules.index_bound_states(f, iv)
 
